@@ -835,6 +835,13 @@ def call_method(I, recv, name, args, kwargs):
         return SDictItems(recv)
     if isinstance(recv, SDict) and recv.rest is not None and name in ("keys", "values"):
         raise Unsupported("keys()/values() of a dict with symbolic remainder")
+    if isinstance(recv, SDict) and recv.rest is None and name == "get" and args and isinstance(args[0], SV) \
+            and all(isinstance(k, (str, int, bool)) or k is None for k in recv.items):
+        # a dynamically typed key: python's hashing rules (unhashable containers raise, True == 1, ...)
+        found, val = I.symbolic_key_lookup(recv, args[0])
+        if found:
+            return val
+        return args[1] if len(args) > 1 else kwargs.get("default")
     if isinstance(recv, SDict) and recv.rest is None and name in ("get", "pop") and args and isinstance(args[0], (SStr, SV)) \
             and all(isinstance(k, str) for k in recv.items):
         # concrete string keys, symbolic lookup key: case split on equality
